@@ -1553,13 +1553,31 @@ def _check_decode_path(run, f: Func, klen: int) -> Optional[ast.For]:
     if em is None:
         raise UnknownIdiom('%s: statement using the lookup: %s' % (f.qual, short(stmt, 80)))
     op, acc, val = em
-    if not (isinstance(val, ast.BinOp) and isinstance(val.op, ast.Add) and val.left is lk):
-        raise UnknownIdiom('%s: emitted value %s' % (f.qual, short(val, 80)))
-    rest = _slice_of(p, f, val.right, tok)
-    if rest is None:
-        raise UnknownIdiom('%s: remainder %s' % (f.qual, short(val.right, 60)))
-    run.check(rest == (klen, None), 'the decoded byte is followed by the rest of the token after the %d key characters' % klen, f, val,
-              where=where, runtime_witness="decode('%41BC') drops or repeats a character")
+    if isinstance(val, ast.BinOp) and not isinstance(val.op, ast.Add) and (
+            (val.left is lk and _slice_lower(p, f, val.right, tok) is not None)
+            or (val.right is lk and _slice_lower(p, f, val.left, tok) is not None)):
+        # Type-level reading: both operands are bytes (a value of the bytes-valued table, a slice of the bytes token).
+        # Between two bytes objects only `+` is concatenation; `-`, `*`, `/`, `//`, `@`, `&`, `|`, `^`, `<<`, `>>`, `**` raise
+        # TypeError (which the KeyError arm does not catch) and `%` is printf-formatting, not concatenation.  Every sibling
+        # path (inline loop, bytearray joiner, list joiner) must combine the two with `+`.
+        run.fail('the decoded byte and the rest of the token are combined by bytes concatenation (`+`) on every decoder path '
+                 '(no other operator is defined between two bytes objects / means concatenation)', f, val, where=where,
+                 witness=['operator %s between the table byte and %s' % (type(val.op).__name__, short(val.right if val.left is lk else val.left, 40))],
+                 runtime_witness="decode('%41' * 8) raises TypeError on the platform that selects this joiner (PyPy: _join_tokens_list)")
+        val = None
+    if val is not None and isinstance(val, ast.BinOp) and isinstance(val.op, ast.Add) and val.right is lk \
+            and _slice_lower(p, f, val.left, tok) is not None:
+        run.fail('the decoded byte precedes the rest of the token (the escape is replaced where it stood)', f, val, where=where,
+                 runtime_witness="decode('%41BC') == 'BCA'")
+        val = None
+    if val is not None:
+        if not (isinstance(val, ast.BinOp) and isinstance(val.op, ast.Add) and val.left is lk):
+            raise UnknownIdiom('%s: emitted value %s' % (f.qual, short(val, 80)))
+        rest = _slice_of(p, f, val.right, tok)
+        if rest is None:
+            raise UnknownIdiom('%s: remainder %s' % (f.qual, short(val.right, 60)))
+        run.check(rest == (klen, None), 'the decoded byte is followed by the rest of the token after the %d key characters' % klen, f, val,
+                  where=where, runtime_witness="decode('%41BC') drops or repeats a character")
 
     # 3. KeyError fallback re-emits '%' + token on the same accumulator
     if try_ is None:
